@@ -26,7 +26,7 @@ pub fn catch<T>(f: impl FnOnce() -> T) -> Result<T, String> {
 }
 
 #[derive(Default)]
-pub struct Report { total: u64, nontrivial: std::collections::BTreeSet<u64>, violations: Vec<J>, known: BTreeMap<String, (u64, String, Vec<String>)>, counters: BTreeMap<String, u64>, samples: Vec<J> }
+pub struct Report { total: u64, nontrivial: std::collections::BTreeSet<u64>, violations: Vec<J>, known: BTreeMap<String, (u64, String, Vec<String>)>, counters: BTreeMap<String, u64>, samples: Vec<J>, drift: Vec<J> }
 impl Report {
     pub fn case(&mut self, c: &J, nontrivial: bool) {
         self.total += 1;
@@ -41,9 +41,18 @@ impl Report {
         let e = self.known.entry(id.into()).or_insert((0, what.into(), props.iter().map(|s| s.to_string()).collect()));
         e.0 += 1;
     }
+    pub fn merge(&mut self, o: Report) {
+        self.violations.extend(o.violations);
+        self.drift.extend(o.drift);
+        for (k, (n, w, p)) in o.known { let e = self.known.entry(k).or_insert((0, w, p)); e.0 += n; }
+        for (k, n) in o.counters { *self.counters.entry(k).or_insert(0) += n; }
+    }
+    pub fn violation_drift(&mut self, case: &J, model: &J, real: &J) {
+        if self.drift.len() < 20 { self.drift.push(json!({"prop": ["C38"], "what": "the coordinator's view differs from the CoordSync model but nothing is reverted by sync_from_raft", "case": case, "model": model, "real": real})); }
+    }
     pub fn write(&self, p: &str) {
         let known: Vec<J> = self.known.iter().map(|(k, (n, w, pr))| json!({"finding": k, "count": n, "what": w, "prop": pr})).collect();
-        std::fs::write(p, serde_json::to_string(&json!({"total": self.total, "distinct_nontrivial": self.nontrivial.len(), "violations": self.violations, "known": known, "drift": [], "samples": self.samples, "counters": self.counters})).unwrap()).unwrap();
+        std::fs::write(p, serde_json::to_string(&json!({"total": self.total, "distinct_nontrivial": self.nontrivial.len(), "violations": self.violations, "known": known, "drift": self.drift, "samples": self.samples, "counters": self.counters})).unwrap()).unwrap();
     }
 }
 
